@@ -4,8 +4,10 @@ import (
 	"flag"
 	"fmt"
 	"os"
+	"os/signal"
 	"sort"
 	"strconv"
+	"syscall"
 	"time"
 
 	"verif/mon"
@@ -60,9 +62,15 @@ func main() {
 		if *tier == "thorough" {
 			limit = 5 * time.Hour
 		}
+		// own process group: when the watchdog fires, every child (tool runs, probes, go builds) goes with it
+		_ = syscall.Setpgid(0, 0)
 		time.AfterFunc(limit, func() {
 			fmt.Printf("INCONCLUSIVE property=%s reason=harness watchdog: the check did not finish within %s\n", *prop, limit)
+			signal.Ignore(syscall.SIGTERM)
+			_ = syscall.Kill(0, syscall.SIGTERM) // the group, except us
+			time.Sleep(2 * time.Second)
 			w.Close()
+			os.Stdout.Sync()
 			os.Exit(2)
 		})
 		code := func() int {
